@@ -35,9 +35,9 @@ KINDS = {
 KIND_FORMAT = {"rel8": (0, 1, 8, 0, 0), "rel32": (0, 4, 32, 0, 0), "imm26": (0, 4, 26, 0, 2), "imm19": (0, 4, 19, 5, 2),
                "imm14": (0, 4, 14, 5, 2), "adr": (2, 4, 21, 5, 0), "adrp": (3, 4, 21, 5, 12)}
 A64_KIND = {"b": "imm26", "bl": "imm26", "bcond": "imm19", "cbz": "imm19", "cbnz": "imm19", "tbz": "imm14", "tbnz": "imm14",
-            "adr": "adr", "adrp": "adrp", "ldr": "imm19", "ldrsw": "imm19", "ldrv": "imm19"}
+            "adr": "adr", "adrp": "adrp", "ldr": "imm19", "ldrsw": "imm19", "ldrv": "imm19", "prfm": "imm19"}
 A64_DB_NAME = {"b": "b", "bl": "bl", "bcond": "b.<cond>", "cbz": "cbz", "cbnz": "cbnz", "tbz": "tbz", "tbnz": "tbnz", "adr": "adr", "adrp": "adrp",
-               "ldr": "ldr", "ldrsw": "ldrsw", "ldrv": "ldr"}
+               "ldr": "ldr", "ldrsw": "ldrsw", "ldrv": "ldr", "prfm": "prfm"}
 _A64_DB = []
 
 
@@ -56,8 +56,8 @@ def a64_db_names():
     return _A64_DB[0]
 
 
-A64_LABEL_ARG = {"b": 2, "bl": 2, "bcond": 3, "cbz": 4, "cbnz": 4, "tbz": 4, "tbnz": 4, "adr": 3, "adrp": 3, "ldr": 4, "ldrsw": 3, "ldrv": 4}
-A64_ADDEND_ARG = {"ldr": 5, "ldrsw": 4, "ldrv": 5}
+A64_LABEL_ARG = {"b": 2, "bl": 2, "bcond": 3, "cbz": 4, "cbnz": 4, "tbz": 4, "tbnz": 4, "adr": 3, "adrp": 3, "ldr": 4, "ldrsw": 3, "ldrv": 4, "prfm": 3}
+A64_ADDEND_ARG = {"ldr": 5, "ldrsw": 4, "ldrv": 5, "prfm": 4}
 X86_BRANCH = ("jmp", "jcc", "call", "jecxz", "loop")
 X86_LABEL_ARG = {"jmp": 2, "jcc": 3, "call": 2, "jecxz": 2, "loop": 2, "lea": 3, "movload": 3, "movmi": 2, "addmi8": 2}
 
@@ -221,7 +221,7 @@ class Gen:
 
     def a_ref(self, l, kinds=None):
         r = self.rng
-        ins = r.choice(kinds or ["b", "bl", "bcond", "cbz", "cbnz", "tbz", "tbnz", "adr", "ldr", "ldrsw", "ldrv", "adrp"])
+        ins = r.choice(kinds or ["b", "bl", "bcond", "cbz", "cbnz", "tbz", "tbnz", "adr", "ldr", "ldrsw", "ldrv", "adrp", "prfm"])
         add = r.choice([0, 0, 0, 4, 8, -4, -8, 16, 1024, -1024, 2, 1])
         if ins in ("b", "bl"):
             return "R %s %d" % (ins, l)
@@ -237,6 +237,8 @@ class Gen:
             return "R ldr %d %d %d %d" % (r.randrange(2), r.randrange(31), l, add)
         if ins == "ldrsw":
             return "R ldrsw %d %d %d" % (r.randrange(31), l, add)
+        if ins == "prfm":
+            return "R prfm %d %d %d" % (r.randrange(32), l, add)
         return "R ldrv %d %d %d %d" % (r.choice([4, 8, 16]), r.randrange(32), l, add)
 
     def ref(self, arch, l, **kw):
@@ -260,7 +262,7 @@ class Gen:
         L = ["P " + arch, "L", "L"]
         if arch == "a64":
             ins, lim, unit = r.choice([("tbz", 1 << 15, 4), ("tbnz", 1 << 15, 4), ("bcond", 1 << 20, 4), ("cbz", 1 << 20, 4), ("ldr", 1 << 20, 4),
-                                       ("adr", 1 << 20, 1), ("ldrv", 1 << 20, 4), ("ldrsw", 1 << 20, 4), ("cbnz", 1 << 20, 4)] +
+                                       ("adr", 1 << 20, 1), ("ldrv", 1 << 20, 4), ("ldrsw", 1 << 20, 4), ("cbnz", 1 << 20, 4), ("prfm", 1 << 20, 4)] +
                                       ([("b", 1 << 27, 4), ("bl", 1 << 27, 4)] if r.random() < (0.12 if self.tier == "quick" else 0.3) else []))
             line = self.a_ref(0, [ins])
             delta = r.choice([-8, -4, -4, 0, 0, 4, 4, 8]) if unit == 4 else r.choice([-2, -1, 0, 0, 1, 2])
@@ -499,7 +501,14 @@ class Gen:
 
 # ------------------------------------------------------------------ translation harness trace -> model operations, with the monitor's own bookkeeping
 class Ref:
-    __slots__ = ("sec", "site", "kind", "label", "rel", "w0", "line", "idx")
+    __slots__ = ("sec", "site", "kind", "label", "rel", "w0", "line", "idx", "ibeg", "ilen", "cls", "imm")
+
+
+def _ref_init(self):
+    self.ibeg = self.ilen = self.cls = self.imm = None
+
+
+Ref.__init__ = _ref_init
 
 
 class Tracker:
@@ -515,6 +524,7 @@ class Tracker:
         self.deltas = []          # (sec, off, size, l, b, immediate?, value bytes)
         self.nflat = 0
         self.refused_binds = 0
+        self.x86_q = []           # (MEAN query for C01's decoder through Reloc.X86Meaning.site_target, address the label was bound at, instruction)
         self.a64_q = []           # (query for the structural a64 decoder of the model, address the monitor's own decoder gets, instruction)
         self.offs = None
         self.problems = []        # (key, what)
@@ -723,6 +733,7 @@ def translate_ref(tk, t, h, data, before, ml, exp, inp):
         ml.append("REF %s %d %d %s 0 -" % (kind, -fs, l, hexs(pre))); exp.append(answer)
         if err == "ok":
             rf = Ref(); rf.sec = tk.cur; rf.site = site; rf.kind = kind; rf.label = l; rf.rel = -fs; rf.w0 = 0; rf.line = inp; rf.idx = len(tk.refs)
+            rf.ibeg = before; rf.ilen = len(data); rf.cls = "branch8" if kind == "rel8" else "branch"; rf.imm = fs
             tk.refs.append(rf)
             check_fx(kind, site, -fs)
         else:
@@ -753,6 +764,7 @@ def translate_ref(tk, t, h, data, before, ml, exp, inp):
         ml.append("REF rel32 %d %d %s 0 %s" % (rel, l, hexs(pre), hexs(post))); exp.append(answer)
         if err == "ok":
             rf = Ref(); rf.sec = tk.cur; rf.site = site; rf.kind = "rel32"; rf.label = l; rf.rel = rel; rf.w0 = 0; rf.line = inp; rf.idx = len(tk.refs)
+            rf.ibeg = before; rf.ilen = len(data); rf.cls = "mem"; rf.imm = imm
             tk.refs.append(rf)
             check_fx("rel32", site, rel)
         else:
@@ -828,6 +840,16 @@ def monitor(prog, hout, tk, stats):
             else:
                 stats["fwd" if lab[1] > rf.site or not same else "bwd"] += 1
                 got = decode_field(rf.kind, w)
+                if tk.arch != "a64" and rf.cls is not None:
+                    # theorems C03_x86_branch_reference_meaning / C03_x86_rip_reference_meaning: the instruction, decoded by C01's proven
+                    # decoder, designates the address where the label was bound (+ the operand's own displacement)
+                    ins_raw = images[rf.sec].read(rf.ibeg, rf.ilen)
+                    if ins_raw is not None:
+                        abits = 64 if tk.arch == "x64" else 32
+                        tgt = offs.get(lab[0], 0) + lab[1] + (rf.rel + 4 + rf.imm if rf.cls == "mem" else 0)
+                        tk.x86_q.append(("MEAN %d %s %d %d %d %s" % (abits, rf.cls, 1 if rf.cls == "mem" else 0, rf.imm,
+                                                                     offs.get(rf.sec, 0) + rf.ibeg, ins_raw.hex()),
+                                         tgt & ((1 << abits) - 1) if rf.cls != "mem" else tgt & M64, rf.line))
                 if tk.arch == "a64":
                     pc = offs.get(rf.sec, 0) + rf.site
                     tk.a64_q.append(("A64 %d %d" % (pc, w), ((pc & ~0xFFF) + got if rf.kind == "adrp" else pc + got) & M64, rf.line))
@@ -1046,9 +1068,26 @@ def check_programs(ck, impl, model, programs):
                     name = A64_DB_NAME.get(ins)
                     mn, form = a64_db_names()
                     stats["a64_db_named"] = stats.get("a64_db_named", 0) + 1
+                    stats.setdefault("a64_db_rows", set()).add(int(g[2]))
                     if name is not None and (mn.get(int(g[1])) != name or form.get(int(g[2]), "").split(" ")[0] != name):
                         r["diffs"].append("%s: the model names database mnemonic %r / row %r for the word %s, emitted was %r"
                                           % (what, mn.get(int(g[1])), form.get(int(g[2])), q, name))
+    # architectural meaning of every exactly resolved x86 rel32 / rel8 reference through C01's proven decoder (Reloc.X86Meaning.site_target,
+    # extracted in the C04 model driver; theorems C03_x86_branch_reference_meaning / C03_x86_rip_reference_meaning)
+    xblocks = [[q[0] for q in r["tk"].x86_q] if r.get("tk") else [] for r in results]
+    if any(xblocks):
+        if getattr(ck, "_c04_model", None) is None:
+            ck._c04_model = ck.ocaml_model("Extract_Reloc.v", ["zconv.ml", "c04_driver.ml"], name="c04")
+        xouts = run_sharded(ck._c04_model, [b or ["RELOC 0 8 0 0 0"] for b in xblocks])
+        for r, blk, outs in zip(results, xblocks, xouts):
+            for (q, want, what), got in zip(r["tk"].x86_q if blk else [], outs or []):
+                if got == "none":
+                    stats["x86_undecoded"] = stats.get("x86_undecoded", 0) + 1      # outside C01's structural decoder (counted, reported in the log)
+                    continue
+                stats["x86_decoded"] = stats.get("x86_decoded", 0) + 1
+                if got != str(want):
+                    r["diffs"].append("%s: decoded by C01's decoder the instruction designates %s, the label (+ operand displacement) is at %#x (%s)"
+                                      % (what, got, want, q))
     return results, stats
 
 
@@ -1154,6 +1193,8 @@ def run(ck):
     nlines = sum(len(p) for p in programs)
     ck.log("programs: %d (%d operations)" % (len(programs), nlines))
     results, stats = check_programs(ck, impl, model, programs)
+    if isinstance(stats.get("a64_db_rows"), set):
+        stats["a64_db_rows"] = len(stats["a64_db_rows"])      # distinct database rows named (20 = every row of Labels.A64DbTie.a64_rid)
     ck.log("ran: %s" % {k: v for k, v in stats.items() if not k.startswith("kind:")})
 
     disagreements = 0
@@ -1177,9 +1218,15 @@ def run(ck):
     return ck.finish(
         "proof",
         {"evaluations": nlines, "distinct_nontrivial": nontrivial,
-         "rule": "label programs generated from VERIF_SEED by four templates (distance around one format's limit in one section; cross-section distance "
-                 "around a limit with a fabricated virtual size; random interleavings over 1-3 sections; 2-64 pending references on one label) for "
-                 "x86-64, AArch64 and x86-32; a program is non-trivial when it contains at least one label reference, embedded label or label delta",
+         "rule": "label programs generated from VERIF_SEED by six templates (distance around one format's limit in one section; cross-section distance "
+                 "around a limit with a fabricated virtual size; random interleavings over 1-3 sections; 2-64 pending references on one label; "
+                 "layout + resolve before the labels are bound, then bind and resolve again; 1100-2500 pending references on one label with "
+                 "buffer growth) for x86-64, AArch64 and x86-32; a program is non-trivial when it contains at least one label reference, embedded "
+                 "label or label delta. Proved (Coq, all operation lists): the properties of the model; compared on every program: every error "
+                 "code, size, count, byte, label and relocation of the implementation against the extracted structured AND flat (byte buffer) "
+                 "models; judged independently: every reference by the python monitor; every exactly resolved reference is additionally decoded "
+                 "by the extracted proven decoders (a64: Labels.A64Dec + database row naming; x86: C01's sdec through X86Meaning.site_target) and "
+                 "must designate the label's address",
          "samples": samples, "programs": len(programs), "operations": nlines,
          "references_judged_by_monitor": stats["refs"], "references_exact": stats["exact"],
          "distribution": stats, "model_vs_impl_disagreements": disagreements,
